@@ -33,7 +33,7 @@ package @pkg@
 @*/
 
 /*@ func types/@pkg@.PodsFilter
-  props C19 C17
+  props C19 C17 C09
   theory @pkg@filters
   note filter.LabelSelector panics on an invalid selector (outside the property)
   requires [sources-valid] (forall ((j Int)) (=> (and (<= 0 j) (< j (slen {sources})))
